@@ -33,7 +33,7 @@ for dst in sorted(glob.glob(os.path.join(ROOT, "seeded", "*"))):
     name = os.path.basename(dst)
     if not mine(name): continue
     if not os.path.exists(os.path.join(dst, "meta.json")) or os.path.exists(os.path.join(dst, "result.json")): continue
-    pid = json.load(open(os.path.join(dst, "meta.json")))["property"]
+    pid = json.load(open(os.path.join(dst, "meta.json"))).get("property") or name[:3]
     if not ready(pid): continue
     extra = ",".join(c for c in EXTRA.get(name, "").split(",") if c and ready(c))
     cmd = [sys.executable, os.path.join(ROOT, "tools", "seedtest.py"), dst] + (["--checks", extra] if extra else [])
